@@ -265,6 +265,13 @@ def run_replay(path, timeout=300):
     return "error", txt
 
 
+def _rm(path):
+    try:
+        os.remove(path)
+    except OSError:
+        pass
+
+
 def load_known():
     p = os.path.join(VERIF, "known_findings.json")
     if not os.path.exists(p):
@@ -374,7 +381,7 @@ def main(argv=None):
             if st == "reproduced":
                 if spec.get("twin"):
                     twin_ok[name] = True
-                    os.remove(path)
+                    _rm(path)
                     continue
                 sig = "%s::%s" % (name, claim)
                 k = match_known(known, prop_id, sig)
@@ -383,7 +390,7 @@ def main(argv=None):
                 elif sig not in [v[0] for v in violations]:
                     violations.append((sig, path, txt))
             else:
-                os.remove(path)
+                _rm(path)
                 if st == "error":
                     harness_errors.append("%s: replay error for %s: %s" % (name, claim, txt[-400:]))
                 else:
